@@ -106,14 +106,15 @@ def serialize_groups(cfg: dict, groups: list, ns_per_group: list | None = None) 
     options = make_options(cfg)
     nss = ns_per_group or [[] for _ in groups]
     dataset = cfg["physical"] != 1
+    wrap = {"list": list, "tuple": tuple}.get(cfg.get("sinks_as"), lambda x: x)     # a generator, or a re-iterable container
     if cfg["integration"] == "generic":
-        sinks = (generic_sink_of(g, n) for g, n in zip(groups, nss))
+        sinks = wrap(generic_sink_of(g, n) for g, n in zip(groups, nss))
         if cfg.get("via") == "file":
             gser.grouped_stream_to_file(sinks, out, options=options)
         else:
             write_frames(gser.grouped_stream_to_frames(sinks, options=options), out, True, cfg.get("collect", False))
     else:
-        stores = (rdflib_store_of(g, n, dataset=dataset) for g, n in zip(groups, nss))
+        stores = wrap(rdflib_store_of(g, n, dataset=dataset) for g, n in zip(groups, nss))
         if cfg.get("via") == "file":
             rser.grouped_stream_to_file(stores, out, options=options)
         else:
